@@ -17,6 +17,7 @@ CONSTANTS
   METAL_FILL_SLOT = 16
   METAL_DEFINE_MACRO = 17
   VoidTags = {"area", "base", "basefont", "br", "col", "frame", "hr", "img", "input", "isindex", "link", "meta", "param"}
+  Quick = TRUE
   Families = {"expr"}
   CtxIds = {"A"}
   EscLen = 2
